@@ -171,6 +171,8 @@ pub struct ChildRec {
     pub removed: bool,
     pub first_poll_step: u32,
     pub role_tag: u8,
+    /// a stream child that stays Pending forever (waker never fired) once it has produced this many items
+    pub never_after: u16,
 }
 
 pub struct WakerRec {
@@ -439,6 +441,7 @@ impl World {
             removed: false,
             first_poll_step: NONE,
             role_tag: 0,
+            never_after: u16::MAX,
         });
         if owner != u16::MAX {
             let c = &mut self.combs[owner as usize];
@@ -695,7 +698,7 @@ impl World {
         let r = &self.children[id as usize];
         let mut opts: [LeafAns; 6] = [LeafAns::Pending; 6];
         let mut n = 0;
-        if r.spec.never {
+        if r.spec.never || r.seq >= r.never_after {
             opts[n] = LeafAns::Pending;
             n += 1;
         } else {
@@ -738,7 +741,7 @@ impl World {
         let r = &mut self.children[id as usize];
         match ans {
             LeafAns::Pending | LeafAns::PendingSelf => {
-                if !r.spec.never {
+                if !(r.spec.never || r.seq >= r.never_after) {
                     r.pend_left -= 1;
                 }
             }
@@ -874,7 +877,7 @@ impl World {
     pub fn fireable(&self, out: &mut Vec<u32>) {
         out.clear();
         for r in self.children.iter() {
-            if r.is_inner || r.finished || r.removed || r.spec.never || r.last != Ans::Pending || r.cur == NONE {
+            if r.is_inner || r.finished || r.removed || r.spec.never || r.seq >= r.never_after || r.last != Ans::Pending || r.cur == NONE {
                 continue;
             }
             if self.wakers[r.cur as usize].fires == 0 {
